@@ -15,6 +15,7 @@ import (
 	"github.com/ethereum/go-ethereum/common"
 	"github.com/ethereum/go-ethereum/crypto"
 
+	crosschainkeeper "github.com/functionx/fx-core/v8/x/crosschain/keeper"
 	crosschaintypes "github.com/functionx/fx-core/v8/x/crosschain/types"
 	trontypes "github.com/functionx/fx-core/v8/x/tron/types"
 
@@ -779,6 +780,36 @@ func c12PartA(spec c12Spec, res *core.CaseResult, verbose bool) {
 		copy(sig[64-len(sb):64], sb)
 		sig[64] ^= 1
 		r.submit("batch1/malleated-duplicate-o0", mkBatch(o0, batch1.BatchNonce, hex.EncodeToString(sig)), true)
+	}
+	// the module's store migration (run by the upgrade that introduced the bridge-call parameters) on
+	// parameters as the previous binary left them: the bridge id that every digest is bound to, and with
+	// it the digest of a stored object, must come through unchanged
+	{
+		ctx := c.Branch()
+		p0 := b.K.GetParams(ctx)
+		old := p0
+		old.BridgeCallTimeout, old.BridgeCallMaxGasLimit = 0, 0
+		ctx.KVStore(c.App.GetKVStoreKey()[spec.Chain]).Set(crosschaintypes.ParamsKey, c.App.AppCodec().MustMarshal(&old))
+		d0 := b.BridgeCallCheckpoint(call1)
+		var err error
+		if p, what := guard(func() { err = crosschainkeeper.NewMigrator(b.K).Migrate(ctx) }); p {
+			err = fmt.Errorf("panic: %s", what)
+		}
+		res.Count("store_migrations_run", 1)
+		p1 := b.K.GetParams(ctx)
+		if err != nil {
+			res.Violate("C12/store-migration-failed", "the %s store migration fails on pre-upgrade parameters: %v", spec.Chain, err)
+		} else if p1.GravityId != p0.GravityId {
+			res.Violate("C12/gravity-id-changed-by-migration", "the %s store migration changed the bridge id from %q to %q: every stored and future confirmation is now checked against a digest the external contract does not compute", spec.Chain, p0.GravityId, p1.GravityId)
+		} else {
+			cp, cerr := call1.GetCheckpoint(p1.GravityId)
+			if fix.IsTron(spec.Chain) {
+				cp, cerr = d0, nil
+			}
+			if cerr != nil || !bytes.Equal(cp, d0) {
+				res.Violate("C12/digest-changed-by-migration", "the digest of stored bridge call %d differs after the store migration (%x -> %x, %v)", call1.Nonce, d0, cp, cerr)
+			}
+		}
 	}
 	res.Nontrivial = r.stored >= 3 && r.rejected >= 10
 	res.Sig = "A/" + spec.Chain
